@@ -46,7 +46,9 @@ func (s *SimpleHighlighter) BestFragment(tlm search.TermLocationMap, orig []byte
 }
 
 func (s *SimpleHighlighter) BestFragments(tlm search.TermLocationMap, orig []byte, num int) []string {
-	orderedTermLocations := OrderTermLocations(tlm)
+	// locations that do not lie within the text cannot be highlighted
+	// (and would index out of range below)
+	orderedTermLocations := OrderTermLocations(tlm).within(len(orig))
 	scorer := NewFragmentScorer(tlm)
 
 	// score the fragments and put them into a priority queue ordered by score
